@@ -14,12 +14,19 @@ P = {
         "Proved for all sorted inputs: the counting merge __merge returns the sorted merge (same multiset) and adds to "
         "s_1[1] exactly the number of pairs left[i] > right[j] and to s_2[0] exactly the number of pairs left[i] == "
         "right[j], touching nothing else (5 loop invariants, 7 induction lemmas on counting specs); the run-length loop of "
-        "__cost_by_ranking adds to s_1[2] exactly the number of strictly ordered pairs of a sorted bucket (fragment). "
+        "__cost_by_ranking adds to s_1[2] exactly the number of strictly ordered pairs of a sorted bucket (fragment); its "
+        "loop over the buckets of the candidate adds to s_1[5], s_2[3] and s_2[5] exactly the three missing-element pair "
+        "counts (sums of products over the per-bucket numbers of missing elements; the float division by two stored in "
+        "an integer array is proved exact through an integer witness and an evenness lemma) and touches no other counter "
+        "(fragment); in get_kemeny_score the dict built from the candidate maps exactly the candidate's elements, each to "
+        "the index of its bucket, and one iteration of the completeness check raises the dedicated exception exactly when "
+        "the input ranking holds an element the dict lacks (fragments). "
         "Bounded: every (candidate, input ranking) pair over <= 4 elements (<= 5 thorough) checked against the pairwise "
         "definition through a scheme whose penalties are distinct powers of 64 (a linear functional with small integer "
         "coefficients is determined by its value), seeded multi-ranking datasets under 25 schemes, supersets, refusals, "
         "the lazy Consensus path, and one factory reused over sequences of calls; the recursion __mergesortlike, the "
-        "missing-element counts and the completeness refusal are bounded only."),
+        "vectors t_1 / t_2 / t_3 and the two counts read from them (s_1[3], s_1[4]), and the final dot products are "
+        "bounded only."),
         tech=TECH_MIX),
     "C02": dict(cat="other", text=(
         "Proved for all inputs (any n, m, weights, any 2x6 scheme with symmetric T): every off-diagonal cell of the table "
@@ -59,7 +66,10 @@ P = {
         "Proved (fragment contract on the merge loop of parfront_partition, any list of sets, any arc set): on exit every "
         "two consecutive groups are linked by robust arcs only. Bounded: partition of the universe, merges consecutive "
         "ParCons groups in order, every optimum (full optimum set, n <= 5) respects it, consistent_with on all "
-        "(partition, ranking) pairs over <= 4 elements. The robustness theorem is cited and validated against the oracle."),
+        "(partition, ranking) pairs over <= 4 elements, on a fresh partition object and on one object that answers all "
+        "queries in turn and must keep its groups. Frame obligations (syntactic, may-alias): no method of "
+        "OrderedPartition other than its constructor mutates the object. The robustness theorem is cited and validated "
+        "against the oracle."),
         tech=TECH_MIX),
     "C08": dict(cat="other", text=(
         "Proved for all inputs (any n, any mirror-consistent cost table, any dense start): when BioConsert's local search "
